@@ -13,7 +13,7 @@ Open Scope Z_scope.
 (* ------------------------------------------------------------------ *)
 (* a concrete history used by the Examples *)
 
-Definition ex_cfg : Params :=
+Definition exd_cfg : Params :=
   mkParams 100 (* max timeout *) 2 (* multiple *) 150 (* min deposit *)
            (ONE / 10) (* tax 0.1 *) (ONE / 4) (* slash 0.25 *)
            30 (* arbitration *) 20 (* complaint *) 999 (* module service *) 77 (* callback module *).
@@ -27,35 +27,35 @@ Definition ex_ops_bound : list Op :=
     OBind 1 11 (CBase 240) (Some ex_raw) 5 10 true ].
 
 Definition ex_s0 : State := init 1 1000 [(10, 1000); (20, 1000)].
-Definition ex_bound : State := run ex_cfg ex_s0 ex_ops_bound.
+Definition ex_bound : State := run exd_cfg ex_s0 ex_ops_bound.
 
 (* ... then disables it and lets 60 seconds pass *)
 Definition ex_disabled : State :=
-  run ex_cfg ex_bound [ ODisable 1 11 10 true; OEndBlock 60 ].
+  run exd_cfg ex_bound [ ODisable 1 11 10 true; OEndBlock 60 ].
 
 (* ... or: consumer 20 calls the service; EndBlock issues request ex_rid *)
 Definition ex_called : State :=
-  run ex_cfg ex_bound
+  run exd_cfg ex_bound
     [ OCall ex_ctx 1 [11] 20 0 (CBase 500) 10 false false 0 0 true true; OEndBlock 5 ].
 Definition ex_rid : ReqId := (ex_ctx, 1, 1, 0).
 
 Lemma BDM_run cfg ops s : BDM cfg s -> BDM cfg (run cfg s ops).
 Proof. intros HB. unfold run. apply fold_inv; [intros; now apply BDM_step|assumption]. Qed.
 
-Lemma ex_s0_BDM : BDM ex_cfg ex_s0.
+Lemma ex_s0_BDM : BDM exd_cfg ex_s0.
 Proof. apply BDM_init. intros a v [E|[E|[]]]; injection E as _ <-; lia. Qed.
 
-Example ex_bound_BDM : BDM ex_cfg ex_bound.
+Example ex_bound_BDM : BDM exd_cfg ex_bound.
 Proof. apply BDM_run, ex_s0_BDM. Qed.
-Example ex_disabled_BDM : BDM ex_cfg ex_disabled.
+Example ex_disabled_BDM : BDM exd_cfg ex_disabled.
 Proof. apply BDM_run, ex_bound_BDM. Qed.
-Example ex_called_BDM : BDM ex_cfg ex_called.
+Example ex_called_BDM : BDM exd_cfg ex_called.
 Proof. apply BDM_run, ex_bound_BDM. Qed.
 
 Example ex_bound_facts :
   get (1, 11) (binds ex_bound) = Some (mkBinding 240 ex_raw 5 true TIME0 10)
   /\ bal ex_bound Deposit = 240 /\ bal ex_bound (User 10) = 760
-  /\ min_dep_val ex_cfg (pricing_of ex_bound (1, 11)) = 200.
+  /\ min_dep_val exd_cfg (pricing_of ex_bound (1, 11)) = 200.
 Proof. vm_compute. repeat split. Qed.
 
 Example ex_disabled_facts :
@@ -105,13 +105,13 @@ Proof. intros HI. apply C03_refund_iff_BDM. now apply Inv_BDM. Qed.
 
 (* 1060 >= 1000 + 30 + 20: the owner may take the deposit back; at time 1000 + 49 he may not *)
 Example ex_refund_iff :
-  (exists s', h_refund_deposit ex_cfg ex_disabled 1 11 10 true = Ok s')
-  /\ ~ (exists s', h_refund_deposit ex_cfg (set_time ex_disabled 1049) 1 11 10 true = Ok s').
+  (exists s', h_refund_deposit exd_cfg ex_disabled 1 11 10 true = Ok s')
+  /\ ~ (exists s', h_refund_deposit exd_cfg (set_time ex_disabled 1049) 1 11 10 true = Ok s').
 Proof.
   split.
   - apply (C03_refund_iff_BDM _ _ _ _ _ ex_disabled_BDM).
     eexists. split; [apply ex_disabled_facts|]. vm_compute. repeat split; discriminate.
-  - intros H. apply (C03_refund_iff_BDM ex_cfg) in H; [|exact ex_disabled_BDM].
+  - intros H. apply (C03_refund_iff_BDM exd_cfg) in H; [|exact ex_disabled_BDM].
     destruct H as (b & Hb & _ & _ & _ & Ht).
     assert (E : b = mkBinding 240 ex_raw 5 false 1000 10) by (vm_compute in Hb; injection Hb as <-; reflexivity).
     subst b. vm_compute in Ht. apply Ht. reflexivity.
@@ -147,7 +147,7 @@ Proof.
 Qed.
 
 Example ex_refund_effect :
-  exists s', h_refund_deposit ex_cfg ex_disabled 1 11 10 true = Ok s'
+  exists s', h_refund_deposit exd_cfg ex_disabled 1 11 10 true = Ok s'
     /\ bal s' (User 10) = 1000 /\ bal s' Deposit = 0
     /\ get (1, 11) (binds s') = Some (mkBinding 0 ex_raw 5 false 1000 10).
 Proof. eexists. split; [vm_compute; reflexivity|]. vm_compute. repeat split. Qed.
@@ -336,7 +336,7 @@ Qed.
 
 (* the owner tops up by 60 while updating: the deposit grows by 60 and he pays 60 *)
 Example ex_grow :
-  exists s', handle ex_cfg ex_bound (OUpdate 1 11 (CBase 60) None 0 10 true) = Ok s'
+  exists s', handle exd_cfg ex_bound (OUpdate 1 11 (CBase 60) None 0 10 true) = Ok s'
     /\ dep_at s' (1, 11) = dep_at ex_bound (1, 11) + 60
     /\ bal s' (User 10) = bal ex_bound (User 10) - 60.
 Proof. eexists. split; [vm_compute; reflexivity|]. vm_compute. split; reflexivity. Qed.
@@ -374,7 +374,7 @@ Proof.
 Qed.
 
 Example ex_reject_bind s' :
-  h_bind ex_cfg ex_bound 1 12 (CBase 199) (Some ex_raw) 5 10 true <> Ok s'.
+  h_bind exd_cfg ex_bound 1 12 (CBase 199) (Some ex_raw) 5 10 true <> Ok s'.
 Proof. apply (C14_reject_bind _ _ _ _ _ _ _ _ _ 199 ex_raw); [reflexivity|reflexivity|vm_compute; reflexivity]. Qed.
 
 (* the price terms after an update *)
@@ -436,7 +436,7 @@ Proof. intros HI. apply C14_reject_update_BDM. now apply Inv_BDM. Qed.
 
 (* raising the price to 130 needs a deposit of 260: 240 + 19 is rejected *)
 Example ex_reject_update s' :
-  h_update ex_cfg ex_bound 1 11 (CBase 19) (Some (Some (mkRaw (130 * ONE) [] []))) 0 10 true <> Ok s'.
+  h_update exd_cfg ex_bound 1 11 (CBase 19) (Some (Some (mkRaw (130 * ONE) [] []))) 0 10 true <> Ok s'.
 Proof.
   eapply (C14_reject_update_BDM _ _ _ _ _ _ _ _ _ _ 19 _ ex_bound_BDM).
   - apply ex_bound_facts.
@@ -446,7 +446,7 @@ Proof.
 Qed.
 (* ... while 240 + 20 is accepted *)
 Example ex_accept_update :
-  is_ok (h_update ex_cfg ex_bound 1 11 (CBase 20) (Some (Some (mkRaw (130 * ONE) [] []))) 0 10 true) = true.
+  is_ok (h_update exd_cfg ex_bound 1 11 (CBase 20) (Some (Some (mkRaw (130 * ONE) [] []))) 0 10 true) = true.
 Proof. vm_compute. reflexivity. Qed.
 
 Theorem C14_reject_enable cfg s svc prov dep owner ok b amt s' :
@@ -463,9 +463,9 @@ Proof.
 Qed.
 
 (* a disabled binding whose deposit was taken back cannot be enabled with less than 200 *)
-Definition ex_refunded : State := fst (step ex_cfg ex_disabled (ORefundDep 1 11 10 true)).
+Definition ex_refunded : State := fst (step exd_cfg ex_disabled (ORefundDep 1 11 10 true)).
 Example ex_reject_enable s' :
-  h_enable ex_cfg ex_refunded 1 11 (CBase 199) 10 true <> Ok s'.
+  h_enable exd_cfg ex_refunded 1 11 (CBase 199) 10 true <> Ok s'.
 Proof.
   eapply (C14_reject_enable _ _ _ _ _ _ _ (mkBinding 0 ex_raw 5 false 1000 10) 199).
   - vm_compute. reflexivity.
@@ -473,7 +473,7 @@ Proof.
   - vm_compute. reflexivity.
 Qed.
 Example ex_accept_enable :
-  is_ok (h_enable ex_cfg ex_refunded 1 11 (CBase 200) 10 true) = true.
+  is_ok (h_enable exd_cfg ex_refunded 1 11 (CBase 200) 10 true) = true.
 Proof. vm_compute. reflexivity. Qed.
 
 (* ------------------------------------------------------------------ *)
@@ -557,23 +557,23 @@ Qed.
 
 (* slash fraction 0.25 of 240 = 60: 180 < 200, the binding is disabled at the block time *)
 Example ex_slash :
-  exists s1, slash ex_cfg ex_called ex_rid = Ok s1
+  exists s1, slash exd_cfg ex_called ex_rid = Ok s1
     /\ get (1, 11) (binds s1) = Some (mkBinding 180 ex_raw 5 false (time ex_called) 10)
     /\ bal s1 Deposit = 180 /\ supply s1 = supply ex_called - 60.
 Proof. eexists. split; [vm_compute; reflexivity|]. vm_compute. repeat split. Qed.
 (* with a deposit of 400 the same slash (100) leaves 300 >= 200 and the binding stays available *)
 Example ex_slash_stays :
-  let s := run ex_cfg ex_s0
+  let s := run exd_cfg ex_s0
      [ ODefine 1 7 true; OBind 1 11 (CBase 400) (Some ex_raw) 5 10 true;
        OCall ex_ctx 1 [11] 20 0 (CBase 500) 10 false false 0 0 true true; OEndBlock 5 ] in
-  exists s1, slash ex_cfg s ex_rid = Ok s1
+  exists s1, slash exd_cfg s ex_rid = Ok s1
     /\ get (1, 11) (binds s1) = Some (mkBinding 300 ex_raw 5 true TIME0 10).
 Proof. eexists. split; [vm_compute; reflexivity|]. vm_compute. reflexivity. Qed.
 
 (* the hypotheses of slash_ok (Proofs/BankLemmas.v) hold for the issued request *)
-Example ex_slash_ok : exists s1, slash ex_cfg ex_called ex_rid = Ok s1.
+Example ex_slash_ok : exists s1, slash exd_cfg ex_called ex_rid = Ok s1.
 Proof.
-  apply (slash_ok ex_cfg ex_called ex_rid (mkReq 11 100 11 true)
+  apply (slash_ok exd_cfg ex_called ex_rid (mkReq 11 100 11 true)
            (ctx_or_zero ex_called ex_ctx) (mkBinding 240 ex_raw 5 true TIME0 10)).
   - vm_compute. split; discriminate.
   - apply ex_called_facts.
@@ -586,6 +586,6 @@ Qed.
 
 (* C14_bind_ok on the binding of the example history *)
 Example ex_bind_ok :
-  exists s', h_bind ex_cfg (run ex_cfg ex_s0 [ODefine 1 7 true]) 1 11 (CBase 240) (Some ex_raw) 5 10 true = Ok s'
-    /\ min_dep_val ex_cfg (pricing_of s' (1, 11)) = 200.
+  exists s', h_bind exd_cfg (run exd_cfg ex_s0 [ODefine 1 7 true]) 1 11 (CBase 240) (Some ex_raw) 5 10 true = Ok s'
+    /\ min_dep_val exd_cfg (pricing_of s' (1, 11)) = 200.
 Proof. eexists. split; [vm_compute; reflexivity|]. vm_compute. reflexivity. Qed.
